@@ -4,7 +4,7 @@
    neighbouring rooms is joined by exactly one passage, so the rooms form a connected grid, and agent and exit are placed on floor cells. *)
 From Coq Require Import ZArith List Bool Lia Permutation ZifyBool.
 From GV.Model Require Import Check.
-From GV.Lemmas Require Import GridL RotL RandL GeomL TransL BfsL C02L C13W C13M C13X C13R C14L C14W C14M C14X.
+From GV.Lemmas Require Import GridL RotL RandL GeomL TransL BfsL C02L C13L C13W C13M C13X C13R C14L C14W C14M C14X.
 Import ListNotations.
 Open Scope Z_scope.
 
@@ -46,6 +46,14 @@ Proof.
   - exists [q]. split; [constructor; auto; constructor|]. split; [cbn; exact E | cbn; tauto].
   - destruct (IH q Wt eq_refl N) as (p' & W' & L' & Nin). exists (q :: p'). split; [constructor; auto|]. split; [rewrite last_cons; exact L'|].
     destruct p' as [|z t']; [cbn in L'; congruence|]. cbn [removelast]. intros [E|H]; [congruence | exact (Nin H)].
+Qed.
+
+Lemma gap2_gapsb l : gap2 l -> gapsb l = true.
+Proof. induction 1 as [|x|x y t Hxy Ht IH]; [reflexivity | reflexivity|]. cbn [gapsb] in *. rewrite IH, andb_true_r. apply Z.leb_le. exact Hxy. Qed.
+Lemma gapsb_gap2 : forall l, gapsb l = true -> gap2 l.
+Proof.
+  induction l as [|x [|y t] IH]; intros H; [constructor | constructor|]. cbn [gapsb] in H. apply andb_true_iff in H. destruct H as [H1 H2].
+  constructor; [now apply Z.leb_le | now apply IH].
 Qed.
 
 Section RoomsWin.
@@ -233,7 +241,7 @@ Theorem rooms_grid_win gl x : Leaf (rooms_grid h w ysp xsp gl) x ->
     (forall a b, (a <= length ym)%nat -> (S b <= length xm)%nat -> exists v, nth a ysp 0 < v < nth (S a) ysp 0 /\ lookupH g (v, nth (S b) xsp 0) = Floor).
 Proof.
   unfold rooms_grid. intros HL.
-  rewrite (NoDup_nodupb ysp (gap2_NoDup ysp Gy)), (NoDup_nodupb xsp (gap2_NoDup xsp Gx)) in HL. cbn [negb] in HL.
+  rewrite (gap2_gapsb ysp Gy), (gap2_gapsb xsp Gx) in HL. cbn [negb] in HL.
   destruct room_grid_winv as (g1 & E1 & C1). rewrite E1 in HL. cbn [lift bind] in HL.
   unfold ysp, xsp in HL. rewrite (inner_ysp h ym), (inner_xsp w xm) in HL. fold ysp xsp in HL.
   set (jobs1 := flat_map (fun y => map (fun pr => (y, pr)) (pairwise xsp)) ym) in *.
@@ -406,3 +414,18 @@ Proof.
     + intros ->. split; [exact Ie|]. rewrite (lookupH_gset_same g pe _ (wi_wf _ C) Ie). vm_compute. reflexivity.
 Qed.
 End RoomsWin.
+
+(* without any hypothesis on the distance between the splits: layouts whose rooms would have no cells are rejected with ValueError *)
+Theorem rooms_winnable_all h w ym xm own own' r : 2 <= h -> 2 <= w -> (forall y, In y ym -> 1 <= y <= h - 2) -> (forall x, In x xm -> 1 <= x <= w - 2) ->
+  Leaf (reset_rooms h w (0 :: ym ++ [h - 1]) (0 :: xm ++ [w - 1]) own) r ->
+  r = Err ValueError \/
+  exists s pe acts path, r = Ok s /\ (forall q, In q (cells_at (sgrid s) (is_ty ty_Exit)) <-> q = pe) /\
+    walk (walkable (sgrid s) (is_ty ty_Exit) pe) (spos s) path /\ last path (spos s) = pe /\ ~ In pe (removelast path) /\
+    length acts = length path /\ Forall (fun a => is_move a = true) acts /\
+    trace [TMoveAgent; TTurnAgent] own' s acts = Ret (map (set_pos s) path).
+Proof.
+  intros Hh Hw Hym Hxm HL.
+  destruct (gapsb (0 :: ym ++ [h - 1])) eqn:Ey; [|rewrite (rooms_rejects h w _ _ own (or_introl Ey)) in HL; apply Leaf_Raise in HL; auto].
+  destruct (gapsb (0 :: xm ++ [w - 1])) eqn:Ex; [|rewrite (rooms_rejects h w _ _ own (or_intror Ex)) in HL; apply Leaf_Raise in HL; auto].
+  exact (rooms_winnable h w ym xm Hh Hw Hym Hxm (gapsb_gap2 _ Ey) (gapsb_gap2 _ Ex) own own' r HL).
+Qed.
